@@ -287,7 +287,22 @@ class SchedulerExpression(TaskExpression[Result]):
     def _calc_hash(self) -> str:
         registry = get_type_registry()
         args_hash = hash_arguments(registry, self.args, self.kwargs)
-        return hash_struct(["SchedulerExpression", self.task_name, args_hash])
+        if not self._options and not self._export_options:
+            # Backwards compatible hash.
+            return hash_struct(["SchedulerExpression", self.task_name, args_hash])
+        else:
+            # Calls that differ in their call-time or exported options are different calls.
+            options_hash = hash_bytes(pickle_dumps(self._options))
+            export_options_hash = hash_struct(list(sorted(self._export_options)))
+            return hash_struct(
+                [
+                    "SchedulerExpression",
+                    self.task_name,
+                    args_hash,
+                    options_hash,
+                    export_options_hash,
+                ]
+            )
 
 
 class ValueExpression(Expression[Result]):
